@@ -454,6 +454,52 @@ def h_container(cx, rational, scenario):
         compare(cx, 'after_add_list', agg(mc), agg(fresh_container([c1, c2])))
 
 
+def h_surface_container(cx, scenario):
+    """SurfaceContainer aggregates (sampled points, tessellation) after edits, against a fresh container"""
+    multi = geo.M('multi')
+    sp = spec('surface', (1, 1), ((), ()), rational=False)
+    s1, _ = shapes.build(cx, sp, normalize_kv=True)
+    P2 = cx.points('R', 4, 3)
+    s2 = geo.make_surface(cx, 1, 1, cx.consts(sp['kvs'][0]), cx.consts(sp['kvs'][1]), 2, 2, P2, None, normalize_kv=True)
+    ms = multi.SurfaceContainer()
+    ms.sample_size = 3
+
+    def agg(container, tess):
+        out = {'evalpts': [list(p) for p in container.evalpts], 'len': len(container)}
+        if tess:
+            out['vertices'] = [list(v.data) for v in container.vertices]
+            out['faces'] = [list(f.data) for f in container.faces]
+        return out
+
+    def fresh_container(elems):
+        f = multi.SurfaceContainer()
+        f.sample_size = 3
+        for e in elems:
+            f.add(fresh(e))
+        return f
+    tess = scenario.endswith('+tessellation')
+    sc = scenario.split('+')[0]
+    ms.add(s1)
+    agg(ms, tess)
+    if sc == 'add':
+        ms.add(s2)
+        compare(cx, 'after_add', agg(ms, tess), agg(fresh_container([s1, s2]), tess))
+    elif sc == 'edit_element':
+        ms.add(s2)
+        agg(ms, tess)
+        m_ctrlpts_prop(cx, ms[0], 'e')
+        compare(cx, 'after_element_edit', agg(ms, tess), agg(fresh_container(list(ms)), tess))
+    elif sc == 'sample_size':
+        ms.add(s2)
+        agg(ms, tess)
+        ms.sample_size = 4
+        f = multi.SurfaceContainer()
+        f.sample_size = 4
+        f.add(fresh(s1))
+        f.add(fresh(s2))
+        compare(cx, 'after_sample_size', agg(ms, tess), agg(f, tess))
+
+
 def instances(tier):
     out = []
     quick = tier == 'quick'
@@ -481,6 +527,8 @@ def instances(tier):
     for rational in (False, True):
         for sc in ('add', 'edit_element', 'sample_size', 'add_list', 'deepcopy', 'failed_batch_add'):
             out.append(inst('container %s %s' % ('rat' if rational else 'nonrat', sc), h_container, timeout=900, rational=rational, scenario=sc))
+    for sc in ('add', 'edit_element', 'sample_size', 'add+tessellation', 'edit_element+tessellation', 'sample_size+tessellation'):
+        out.append(inst('surface container %s' % sc, h_surface_container, timeout=900, scenario=sc))
     if not quick:
         pair_muts = ['ctrlpts=', 'weights=', 'ctrlptsw=', 'knotvector=', 'sample_size=', 'insert_knot', 'remove_knot', 'refine_knotvector',
                      'reverse', 'transpose', 'flip', 'translate_inplace', 'scale_inplace', 'ctrlpts2d=', 'move_one_point']
